@@ -28,6 +28,11 @@ pub struct RuleSpec
     /// fail when the picked *leaf* source holds pool content c
     pub failon: Option<(u16, u8)>,
     pub const_tag: u8,
+    /// with `failon`: the check sits on a script line of its own, the other lines still write the targets
+    /// (a rule that fails although every target exists afterwards); only for checks that do not assume
+    /// "a failing command writes nothing"
+    #[serde(default)]
+    pub late_fail: bool,
 }
 
 #[derive(Clone, Debug, Serialize, Deserialize, PartialEq)]
@@ -47,6 +52,11 @@ pub const CONTENT_POOL: [&str; 5] = ["v0", "v1", "v2", "v3", "v4"];
 
 pub fn rule_spec(max_targets: u8, allow_fail: bool) -> impl Strategy<Value = RuleSpec>
 {
+    rule_spec_ext(max_targets, allow_fail, false)
+}
+
+pub fn rule_spec_ext(max_targets: u8, allow_fail: bool, allow_late_fail: bool) -> impl Strategy<Value = RuleSpec>
+{
     (
         prop_oneof![4 => Just(1u8), 3 => Just(2u8), 1 => Just(3u8)].prop_map(move |n| n.min(max_targets)),
         proptest::collection::vec(any::<u16>(), 1..=3),
@@ -63,16 +73,22 @@ pub fn rule_spec(max_targets: u8, allow_fail: bool) -> impl Strategy<Value = Rul
             Just(None).boxed()
         },
         0u8..3,
-    ).prop_map(|(n_targets, srcs, kinds, exec, split, multi_line, failon, const_tag)|
-        RuleSpec { n_targets, srcs, kinds, exec, split, multi_line, failon, const_tag })
+        any::<bool>(),
+    ).prop_map(move |(n_targets, srcs, kinds, exec, split, multi_line, failon, const_tag, late)|
+        RuleSpec { n_targets, srcs, kinds, exec, split, multi_line, failon, const_tag, late_fail: late && allow_late_fail })
 }
 
 pub fn graph_spec(max_rules: usize, allow_fail: bool) -> impl Strategy<Value = GraphSpec>
 {
+    graph_spec_ext(max_rules, allow_fail, false)
+}
+
+pub fn graph_spec_ext(max_rules: usize, allow_fail: bool, allow_late_fail: bool) -> impl Strategy<Value = GraphSpec>
+{
     (
         1u8..=4,
         proptest::collection::vec(0u8..5, 4),
-        proptest::collection::vec(rule_spec(3, allow_fail), 1..=max_rules),
+        proptest::collection::vec(rule_spec_ext(3, allow_fail, allow_late_fail), 1..=max_rules),
         any::<u16>(),
         prop_oneof![3 => Just(false), 1 => Just(true)],
         prop_oneof![3 => Just(false), 1 => Just(true)],
@@ -107,13 +123,17 @@ impl Names
         }
         let pool = ids.iter().map(|i|
         {
-            let base = format!("f{:02}", i);
+            // some names are another name plus a suffix (f04 / f04.b): prefix relations between unrelated paths
+            let base = if i % 8 == 5 { format!("f{:02}.b", i - 1) } else { format!("f{:02}", i) };
             if dirs
             {
-                match i % 4
+                match i % 8
                 {
-                    0 => format!("d0/{}", base),
+                    0 | 4 | 5 => format!("d0/{}", base),
                     1 => format!("d1/sub/{}", base),
+                    // a root-level file whose name starts like a directory name followed by a character below '/':
+                    // bundled and flat spellings order such siblings differently
+                    6 => format!("d0.{}", base),
                     _ => base,
                 }
             }
@@ -148,6 +168,7 @@ pub fn build_rule(spec: &RuleSpec, candidates: &[String], leaves: &[String], nam
     let nt = spec.n_targets.max(1) as usize;
     let targets: Vec<String> = (0..nt).map(|_| names.fresh()).collect();
     let mut chain: Vec<Instr> = vec![];
+    let mut chains: Vec<Vec<Instr>> = vec![];
     if let Some((p, c)) = spec.failon
     {
         let leaf_srcs: Vec<&String> = sources.iter().filter(|s| leaves.contains(s)).collect();
@@ -155,9 +176,12 @@ pub fn build_rule(spec: &RuleSpec, candidates: &[String], leaves: &[String], nam
         {
             let s = leaf_srcs[pick(p, leaf_srcs.len())].clone();
             chain.push(Instr::FailOn { src: s, content: CONTENT_POOL[c as usize % 5].to_string() });
+            if spec.late_fail
+            {
+                chains.push(std::mem::take(&mut chain));
+            }
         }
     }
-    let mut chains: Vec<Vec<Instr>> = vec![];
     for (k, t) in targets.iter().enumerate()
     {
         let kind = spec.kinds.get(k).cloned().unwrap_or(0);
@@ -355,6 +379,8 @@ pub enum Sched
     Random { seed: u64, switch_num: u8 },
     Pct { seed: u64, d: u8 },
     Trace { trace: Vec<u16> },
+    /// preemptions addressed by (thread, operation tag, occurrence, choice)
+    OnTag { points: Vec<(usize, String, u32, u16)> },
 }
 
 pub fn sched() -> impl Strategy<Value = Sched>
